@@ -9,14 +9,11 @@ Open Scope string_scope.
 
 Definition c18_skel_full : skeleton := mkSkeleton skel_funs skel_ifaces skel_slots skel_roots.
 
-(* KNOWN FINDING C18/1 (confirmed by the deadlock harness, findings/C18.json): BlockchainRpcTxWatcher.AddWaitForCsvTx
-   calls the CSV callback synchronously when the transaction is already past the CSV; AwaitCsvAction /
-   AwaitPaymentOrCsvAction call it under the swap's mutex and the callback (OnCsvPassed -> SendEvent) takes the same
-   mutex.  The finding is taken out of the skeleton by removing exactly that call:
-   (function, (op code 10 = CallSlot, slot)) *)
-Definition c18_known : list (string * (N * string)) := [
-  ("txwatcher.BlockchainRpcTxWatcher.AddWaitForCsvTx", (10%N, "F:txwatcher.BlockchainRpcTxWatcher.csvPassedCallback"))
-].
+(* Finding C18/1 (D17) is REPAIRED ("fix: txwatcher: run the csv callback of an already matured tx off the caller's
+   goroutine"): BlockchainRpcTxWatcher.AddWaitForCsvTx used to call the CSV callback synchronously, under the swap's
+   mutex held by AwaitCsvAction / AwaitPaymentOrCsvAction, and the callback (OnCsvPassed -> SendEvent) takes the same
+   mutex.  Nothing is taken out of the skeleton any more: (function, (op code 10 = CallSlot, slot)) *)
+Definition c18_known : list (string * (N * string)) := [].
 Definition c18_known_ids : list (N * (N * N)) :=
   resolve_ops skel_fn_names skel_lock_names skel_field_names skel_iface_names skel_slot_names c18_known.
 
